@@ -39,20 +39,96 @@ SCORE_NAMES = ["Base Score", "Temporal Score", "Environmental Score"]
 LINE = re.compile(r"^(Base Score|Temporal Score|Environmental Score):\s+(\S+)(?:\s+\((\w+)\))?\s*$")
 
 
+def parse_argv(argv):
+    """Own reading of a command line built from -2/-3/-4, -v VECTOR, -j, -a, -n (short
+    flags may be clustered, a value may be glued to -v; long forms --vector[=V], --json,
+    --all, --no-colors)."""
+    out = {"versions": [], "vector": None, "json": False, "all": False, "no_colors": False}
+    i = 0
+    while i < len(argv):
+        a = argv[i]
+        if a.startswith("--"):
+            if a == "--vector" and i + 1 < len(argv):
+                out["vector"] = argv[i + 1]
+                i += 1
+            elif a.startswith("--vector="):
+                out["vector"] = a[len("--vector="):]
+            elif a == "--json":
+                out["json"] = True
+            elif a == "--all":
+                out["all"] = True
+            elif a == "--no-colors":
+                out["no_colors"] = True
+        elif a.startswith("-") and len(a) > 1:
+            j = 1
+            while j < len(a):
+                c = a[j]
+                if c in "234":
+                    if c not in out["versions"]:
+                        out["versions"].append(c)
+                elif c == "j":
+                    out["json"] = True
+                elif c == "a":
+                    out["all"] = True
+                elif c == "n":
+                    out["no_colors"] = True
+                elif c == "v":
+                    rest = a[j + 1:]
+                    if rest:
+                        out["vector"] = rest[1:] if rest.startswith("=") else rest
+                    elif i + 1 < len(argv):
+                        out["vector"] = argv[i + 1]
+                        i += 1
+                    break
+                j += 1
+        i += 1
+    return out
+
+
 def candidates(argv):
-    flags = [f for f in ("2", "3", "4") if "-" + f in argv]
+    flags = sorted(parse_argv(argv)["versions"])
     if not flags:
         return ["3.1"]
     return [FLAG_VTAG[f] for f in flags]
 
 
 def vector_arg(argv):
-    for i, a in enumerate(argv):
-        if a in ("-v", "--vector") and i + 1 < len(argv):
-            return argv[i + 1]
-        if a.startswith("--vector="):
-            return a[len("--vector="):]
-    return None
+    return parse_argv(argv)["vector"]
+
+
+def cluster(rng, argv):
+    """An equivalent spelling of the command line: short flags clustered (-2j, -4nj), the
+    value glued to -v (-vVECTOR) or -v clustered last (-jv VECTOR)."""
+    shorts, rest, vec = [], [], None
+    i = 0
+    while i < len(argv):
+        a = argv[i]
+        if a in ("-2", "-3", "-4", "-j", "-a", "-n"):
+            shorts.append(a[1])
+        elif a == "-v" and i + 1 < len(argv):
+            vec = argv[i + 1]
+            i += 1
+        else:
+            rest.append(a)
+        i += 1
+    out = list(rest)
+    if vec is not None and (vec == "" or vec.startswith("-") or vec.startswith("=")):
+        return argv  # keep the plain spelling for values argparse treats specially
+    if vec is None:
+        if shorts:
+            out.append("-" + "".join(shorts))
+        return out
+    r = rng.random()
+    if r < 0.4:
+        if shorts:
+            out.append("-" + "".join(shorts))
+        out.append("-v" + vec)
+    elif r < 0.8:
+        out.append("-" + "".join(shorts) + "v")
+        out.append(vec)
+    else:
+        out.append("-" + "".join(shorts) + "v" + vec)
+    return out
 
 
 def run_inprocess(argv, answers):
@@ -176,9 +252,10 @@ def judge(P, argv, answers, r, mode):
     if "Traceback (most recent call last)" in r["err"] or "Traceback (most recent call last)" in r["out"]:
         P.violation("clean-exit", "C17:traceback-printed", case, stderr=r["err"][-600:])
         return
-    vec = vector_arg(argv)
-    want_json = "-j" in argv or "--json" in argv
-    all_metrics = "-a" in argv or "--all" in argv
+    pa = parse_argv(argv)
+    vec = pa["vector"]
+    want_json = pa["json"]
+    all_metrics = pa["all"]
     cands = candidates(argv)
     out_lines = r["out"].split("\n")
     verdicts = []
@@ -307,6 +384,10 @@ def cases(rng, n, subprocess_safe):
                 answers = answers[:rng.randrange(len(answers) + 1)]
             argv = vf + of + (["-v", ""] if rng.random() < 0.1 else [])
         k += 1
+        if rng.random() < 0.25:
+            clustered = cluster(rng, argv)
+            if parse_argv(clustered) == parse_argv(argv):
+                argv = clustered
         yield argv, answers
 
 
@@ -315,7 +396,9 @@ def shard(P, idx, n, mode, seed):
     rng = random.Random("C17-%s-%s-%s" % (seed, mode, idx))
     for argv, answers in cases(rng, n, mode == "subprocess"):
         P.dist((tuple(argv), tuple(answers)))
-        P.stratum("%s:flags:%s" % (mode, "+".join(a for a in argv if a in ("-2", "-3", "-4")) or "none"))
+        P.stratum("%s:flags:%s" % (mode, "+".join("-" + f for f in sorted(parse_argv(argv)["versions"])) or "none"))
+        if any(len(a) > 2 and a[0] == "-" and a[1] != "-" for a in argv):
+            P.stratum("%s:clustered-or-glued-short-options" % mode)
         check_cli(P, argv, answers, mode)
         if P.evaluations % 97 == 1:
             P.sample({"argv": argv, "answers": answers, "mode": mode})
